@@ -1,0 +1,226 @@
+//go:build verif
+
+package align
+
+// Contracts for property C04 (site extraction and coordinates), second batch:
+// reference coordinates, Split, ReplaceMatchChars / DiffWithFirst, Concat / Append.
+
+// ---- coordinates on an ungapped reference row ----
+
+// number of non-gap residues of the row s before column k ("ungapped coordinate" of column k)
+//@ pure func c4b_ung(s *seq, k int) int = (k <= 0 ? 0 : c4b_ung(s, k-1) + (s.sequence[k-1] != '-' ? 1 : 0))
+// the reference row of a call
+//@ pure func c4b_ref(a *align, name string) *seq = a.seqmap[name]
+
+// RefCoordinates: error iff the row does not exist or the request [refstart, refstart+reflen) is not a non-empty
+// window of the ungapped reference; otherwise [alistart, alistart+alilen) is the smallest alignment window whose
+// reference residues are exactly the requested ones: it starts and ends on a residue, refstart residues precede it,
+// and it holds reflen residues.
+//@ func (*align).RefCoordinates
+//@   props C04 C19
+//@   arith wrap64
+//@   requires wfa(a)
+// an error is reported only when the request is outside: unknown row, negative start, empty window, or more residues requested than the reference has after refstart
+//@   ensures err != nil ==> !has(a.seqmap, name) || refstart < 0 || reflen <= 0 || reflen > c4b_ung(c4b_ref(a, name), len(c4b_ref(a, name).sequence)) - refstart
+// success: the request is well-formed and the window below exists (its end alistart+alilen <= L is a column preceded by exactly refstart+reflen residues,
+// hence refstart+reflen <= number of residues of the reference: c4b_ung is monotone in its column argument)
+//@   ensures err == nil ==> has(a.seqmap, name) && 0 <= refstart && 0 < reflen
+//@   ensures err == nil ==> 0 <= alistart && 1 <= alilen && alistart + alilen <= a.length
+//@   ensures err == nil ==> c4b_ung(c4b_ref(a, name), alistart) == refstart && c4b_ref(a, name).sequence[alistart] != '-'
+//@   ensures err == nil ==> c4b_ung(c4b_ref(a, name), alistart + alilen) == refstart + reflen && c4b_ref(a, name).sequence[alistart + alilen - 1] != '-'
+//@   modifies nothing
+//@   loop 1
+//@     invariant err == nil && has(a.seqmap, name) && sameslice(seq, c4b_ref(a, name).sequence) && 0 <= refstart && 0 < reflen
+//@     invariant tmpi == c4b_ung(c4b_ref(a, name), $i) - 1 && ngaps == $i - c4b_ung(c4b_ref(a, name), $i) && 0 <= c4b_ung(c4b_ref(a, name), $i) && c4b_ung(c4b_ref(a, name), $i) <= $i
+//@     invariant 0 <= alistart && alistart <= $i && 0 <= alilen && alilen <= $i && alistart + alilen == $i
+//@     invariant tmpi < refstart ==> alilen == 0
+//@     invariant tmpi >= refstart ==> alilen >= 1 && c4b_ung(c4b_ref(a, name), alistart) == refstart && seq[alistart] != '-' && tmpi - refstart < reflen - 1
+//@     decreases len(seq) - $i
+
+// column p of the reference row holds a requested residue: it is not a gap and its ungapped coordinate is one of the sites
+//@ pure func c4b_want(a *align, name string, sites []int, p int) bool = c4b_ref(a, name).sequence[p] != '-' && insites(sites, len(sites), c4b_ung(c4b_ref(a, name), p))
+// all the requested coordinates are residues of the reference (the number of residues is at most the alignment length L; `< L` is stated too
+// because that bound of the counting function is not available to the solver without induction)
+//@ pure func c4b_sitesinref(a *align, name string, sites []int) bool = forall j :: 0 <= j && j < len(sites) ==> 0 <= sites[j] && sites[j] < a.length && sites[j] < c4b_ung(c4b_ref(a, name), len(c4b_ref(a, name).sequence))
+
+// RefSites: error iff the row does not exist or a site is not an ungapped coordinate of the reference; otherwise the result lists,
+// in increasing order, exactly the alignment columns whose reference residue is one of the requested ones
+//@ func (*align).RefSites
+//@   props C04 C19
+//@   requires wfa(a)
+//@   ensures (err == nil) == (has(a.seqmap, name) && c4b_sitesinref(a, name, sites))
+//@   ensures err == nil ==> forall k :: 0 <= k && k < len(refsites) ==> 0 <= refsites[k] && refsites[k] < a.length && c4b_want(a, name, sites, refsites[k])
+//@   ensures err == nil ==> forall k :: 0 <= k && k + 1 < len(refsites) ==> refsites[k] < refsites[k+1]
+// completeness: no requested column before the first result, between two consecutive results, or after the last one
+//@   ensures err == nil ==> forall p :: 0 <= p && p < a.length && (len(refsites) == 0 || p < refsites[0]) ==> !c4b_want(a, name, sites, p)
+//@   ensures err == nil ==> forall k, p :: 0 <= k && k + 1 < len(refsites) && refsites[k] < p && p < refsites[k+1] ==> !c4b_want(a, name, sites, p)
+//@   ensures err == nil ==> forall p :: len(refsites) > 0 && refsites[len(refsites)-1] < p && p < a.length ==> !c4b_want(a, name, sites, p)
+//@   modifies nothing
+//@   loop 1
+//@     invariant err == nil && has(a.seqmap, name) && sameslice(seq, c4b_ref(a, name).sequence) && len(refsites) == 0 && mappos != nil && fresh(mappos)
+//@     invariant forall j :: 0 <= j && j < $i ==> 0 <= sites[j] && sites[j] < a.length && has(mappos, sites[j])
+//@     invariant forall c :: has(mappos, c) ==> insites(sites, $i, c)
+//@     decreases len(sites) - $i
+//@   loop 2
+//@     invariant err == nil && has(a.seqmap, name) && sameslice(seq, c4b_ref(a, name).sequence) && mappos != nil && (cap(refsites) == 0 || fresh(refsites))
+//@     invariant forall j :: 0 <= j && j < len(sites) ==> 0 <= sites[j] && sites[j] < a.length && has(mappos, sites[j])
+//@     invariant forall c :: has(mappos, c) ==> insites(sites, len(sites), c)
+//@     invariant tmpi == c4b_ung(c4b_ref(a, name), $i) - 1 && ngaps == $i - c4b_ung(c4b_ref(a, name), $i) && 0 <= c4b_ung(c4b_ref(a, name), $i) && c4b_ung(c4b_ref(a, name), $i) <= $i
+//@     invariant forall k :: 0 <= k && k < len(refsites) ==> 0 <= refsites[k] && refsites[k] < $i && seq[refsites[k]] != '-' && has(mappos, c4b_ung(c4b_ref(a, name), refsites[k]))
+//@     invariant forall k :: 0 <= k && k + 1 < len(refsites) ==> refsites[k] < refsites[k+1]
+//@     invariant forall p :: 0 <= p && p < $i && (len(refsites) == 0 || p < refsites[0]) ==> !(seq[p] != '-' && has(mappos, c4b_ung(c4b_ref(a, name), p)))
+//@     invariant forall k, p :: 0 <= k && k + 1 < len(refsites) && refsites[k] < p && p < refsites[k+1] ==> !(seq[p] != '-' && has(mappos, c4b_ung(c4b_ref(a, name), p)))
+//@     invariant forall p :: len(refsites) > 0 && refsites[len(refsites)-1] < p && p < $i ==> !(seq[p] != '-' && has(mappos, c4b_ung(c4b_ref(a, name), p)))
+//@     decreases len(seq) - $i
+// (loop 3 exists only with defect_2_fix.patch applied: the check of the sites against the number of residues of the reference)
+//@   loop 3
+//@     invariant err == nil
+//@     invariant forall j :: 0 <= j && j < $i ==> sites[j] < c4b_ung(c4b_ref(a, name), len(c4b_ref(a, name).sequence))
+//@     decreases len(sites) - $i
+
+// ---- match characters: DiffWithFirst / ReplaceMatchChars ----
+
+// what ReplaceMatchChars leaves in cell (r, c): a '.' below the first row becomes the first row's character (unless that is a '.' too)
+//@ pure func c4b_exp1(x0 int, x int) int = (x0 != '.' && x == '.' ? x0 : x)
+//@ pure func c4b_expanded(a *align, r int, c int) int = (r >= 1 ? c4b_exp1(old(cell(a, 0, c)), old(cell(a, r, c))) : old(cell(a, r, c)))
+// what DiffWithFirst leaves in a cell below the first row: '.' where it agrees with the first row
+//@ pure func c4b_diff1(x0 int, x int) int = (x0 == x ? '.' : x)
+// rows, names, order and storage of the rows are what they were
+//@ pure func c4b_sameshape(a *align) bool = a.length == old(a.length) && nrows(a) == old(nrows(a)) && (forall r :: 0 <= r && r < nrows(a) ==> row(a, r) == old(row(a, r)) && rowname(a, r) == old(rowname(a, r)) && sameslice(row(a, r).sequence, old(row(a, r).sequence)))
+
+// ReplaceMatchChars rewrites residues only (shape, names and the name index are untouched: used by the parsers, C03);
+// every cell is expanded as above (C04) provided the rows do not share storage (owns(a): true of every alignment built by the package;
+// it is a premise of the clauses and not a precondition, so that the parsers' proofs (C03) need not establish it).
+//@ func (*align).ReplaceMatchChars
+//@   props C03 C04
+//@   requires wfa(a)
+//@   ensures wfa(a) && nrows(a) == old(nrows(a)) && a.length == old(a.length)
+//@   ensures [C04] c4b_sameshape(a)
+//@   ensures [C04] old(owns(a)) ==> forall r, c :: 0 <= r && r < nrows(a) && 0 <= c && c < a.length ==> cell(a, r, c) == c4b_expanded(a, r, c)
+//@   modifies mem(uint8)
+//@   loop 1
+//@     invariant 1 <= seq && seq <= nrows(a) && ref == row(a, 0)
+//@     invariant [C04] old(owns(a)) ==> forall r, c :: 0 <= r && r < seq && 0 <= c && c < a.length ==> cell(a, r, c) == c4b_expanded(a, r, c)
+//@     invariant [C04] old(owns(a)) ==> forall r, c :: seq <= r && r < nrows(a) && 0 <= c && c < a.length ==> cell(a, r, c) == old(cell(a, r, c))
+//@     decreases nrows(a) - seq
+//@   loop 2
+//@     invariant 0 <= site && 1 <= seq && seq < nrows(a) && ref == row(a, 0)
+//@     invariant [C04] old(owns(a)) ==> forall r, c :: 0 <= r && r < seq && 0 <= c && c < a.length ==> cell(a, r, c) == c4b_expanded(a, r, c)
+//@     invariant [C04] old(owns(a)) ==> forall c :: 0 <= c && c < site && c < a.length ==> cell(a, seq, c) == c4b_expanded(a, seq, c)
+//@     invariant [C04] old(owns(a)) ==> forall c :: site <= c && c < a.length ==> cell(a, seq, c) == old(cell(a, seq, c))
+//@     invariant [C04] old(owns(a)) ==> forall r, c :: seq < r && r < nrows(a) && 0 <= c && c < a.length ==> cell(a, r, c) == old(cell(a, r, c))
+//@     decreases a.length - site
+
+// IterateChar / IterateAll call `it` on the rows in order until it returns true; they write nothing themselves.
+// The effects of the function literal are accounted for at the call site by the verifier (every captured variable
+// it assigns and every heap array it writes is havocked after the call).
+//@ func (*seqbag).IterateChar
+//@   props C04
+//@   trusted higher-order: calls its argument on each row (calls of function values are not inlined by the generator); the loop itself only reads sb.seqs
+//@   requires sb != nil
+//@   modifies nothing
+//@ func (*seqbag).IterateAll
+//@   props C04
+//@   trusted higher-order: calls its argument on each row (calls of function values are not inlined by the generator); the loop itself only reads sb.seqs
+//@   requires sb != nil
+//@   modifies nothing
+
+// DiffWithFirst, the function itself: only residues are written (the per-row effect is the closure's contract below)
+//@ func (*align).DiffWithFirst
+//@   props C04
+//@   requires wfa(a)
+//@   ensures wfa(a) && c4b_sameshape(a)
+//@   modifies mem(uint8)
+
+// the step DiffWithFirst runs on each row (i = number of rows already visited, first = the first row's residues):
+// the first row is only remembered; every other row gets '.' exactly where it agrees with the first row, the first row is not written.
+// Assumed about the caller (IterateChar hands over the rows of a rectangular alignment whose rows do not share storage):
+// the row has the first row's length and other storage.
+//@ func (*align).DiffWithFirst$1
+//@   props C04
+//@   requires i >= 0 && (i > 0 ==> len(other) == len(first) && (base(other) != base(first) || len(first) == 0))
+//@   ensures result == false && i == old(i) + 1
+//@   ensures old(i) == 0 ==> sameslice(first, other) && (forall k :: 0 <= k && k < len(other) ==> other[k] == old(other[k]))
+//@   ensures old(i) > 0 ==> sameslice(first, old(first)) && (forall k :: 0 <= k && k < len(other) ==> other[k] == c4b_diff1(old(first[k]), old(other[k])) && first[k] == old(first[k]))
+//@   modifies other[*], captured(i), captured(first), captured(l)
+//@   loop 1
+//@     invariant old(i) > 0 && i == old(i) && 0 <= l && l <= len(first) && sameslice(first, old(first))
+//@     invariant forall k :: 0 <= k && k < l ==> other[k] == c4b_diff1(old(first[k]), old(other[k]))
+//@     invariant forall k :: l <= k && k < len(other) ==> other[k] == old(other[k])
+//@     invariant forall k :: 0 <= k && k < len(first) ==> first[k] == old(first[k])
+//@     decreases len(first) - l
+
+// the two per-cell rules are inverse of each other on alignments that hold no match character below the first row
+// (a '.' under a residue of the first row is turned into that residue by ReplaceMatchChars: it cannot be told from a match)
+//@ lemma c4b_diff_then_expand(x0 int, x int)
+//@   props C04
+//@   requires x != '.' || x0 == '.'
+//@   ensures c4b_exp1(x0, c4b_diff1(x0, x)) == x
+// and expanding is idempotent / a diffed cell never equals the first row's residue
+//@ lemma c4b_expand_twice(x0 int, x int)
+//@   props C04
+//@   ensures c4b_exp1(x0, c4b_exp1(x0, x)) == c4b_exp1(x0, x)
+//@   ensures x0 != '.' ==> c4b_diff1(x0, x) != x0
+
+// ---- concatenation ----
+
+// w is the window [start, start+length) of a: same rows and names, cell (r, c) is cell (r, start+c) of a  (what SubAlign promises)
+//@ pure func c4b_iswindow(a *align, w *align, start int, length int) bool = nrows(w) == nrows(a) && (forall r :: 0 <= r && r < nrows(a) ==> rowname(w, r) == rowname(a, r)) && (forall r, c :: 0 <= r && r < nrows(a) && 0 <= c && c < length ==> cell(w, r, c) == cell(a, r, start + c))
+// x is p (l1 columns) followed by s (l2 columns), rows paired by index (the names of p and s agree row by row and are unique, so pairing by name is pairing by index)
+//@ pure func c4b_isconcat(x *align, p *align, l1 int, s *align, l2 int) bool = nrows(x) == nrows(p) && (forall r, c :: 0 <= r && r < nrows(p) && 0 <= c && c < l1 + l2 ==> cell(x, r, c) == (c < l1 ? cell(p, r, c) : cell(s, r, c - l1)))
+// prefix + suffix = original: SubAlign(0, k) followed by SubAlign(k, L-k) gives back every cell
+//@ lemma c4b_prefix_suffix_concat(a *align, p *align, s *align, x *align, k int)
+//@   props C04
+//@   requires 0 <= k && k <= a.length && c4b_iswindow(a, p, 0, k) && c4b_iswindow(a, s, k, a.length - k) && c4b_isconcat(x, p, k, s, a.length - k)
+//@   ensures nrows(x) == nrows(a)
+//@   ensures forall r, c :: 0 <= r && r < nrows(a) && 0 <= c && c < a.length ==> cell(x, r, c) == cell(a, r, c)
+
+// appendToSequence: error iff no row has that name; otherwise the row keeps its residues and the given ones follow
+// (cell L1+k of the row is sequence[k]); no other row object is touched
+//@ func (*seqbag).appendToSequence
+//@   props C04
+//@   requires wf(sb)
+//@   ensures (result == nil) == old(has(sb.seqmap, name))
+//@   ensures result == nil ==> len(sb.seqmap[name].sequence) == old(len(sb.seqmap[name].sequence)) + len(sequence)
+//@   ensures result == nil ==> forall k :: 0 <= k && k < old(len(sb.seqmap[name].sequence)) ==> sb.seqmap[name].sequence[k] == old(sb.seqmap[name].sequence[k])
+//@   ensures result == nil ==> forall k :: 0 <= k && k < len(sequence) ==> sb.seqmap[name].sequence[old(len(sb.seqmap[name].sequence)) + k] == old(sequence[k])
+//@   ensures result != nil ==> sb.seqmap[name] == nil
+//@   modifies sb.seqmap[name].sequence, sb.seqmap[name].sequence[+]
+
+// Concat, first pass (closure run on every row of a): a row of a that has no partner in c is padded with Length(c) gaps.
+// Assumed about the captured variables: a is a well-formed bag, c a well-formed alignment (possibly without rows: length -1),
+// clen the number of columns of c (with defect_3_fix.patch; on the unchanged code the closure reads c.Length() itself: drop the clen conjunct).
+//@ func (*align).Concat$1
+//@   props C04
+//@   requires wf(a) && wfa(c) && has(a.seqmap, name) && clen == (c.length < 0 ? 0 : c.length)
+//@   ensures old(has(c.seqmap, name)) ==> result == false || old(err != nil)
+//@   ensures !old(has(c.seqmap, name)) ==> err == nil && result == false && len(a.seqmap[name].sequence) == old(len(a.seqmap[name].sequence)) + (c.length < 0 ? 0 : c.length)
+//@   ensures !old(has(c.seqmap, name)) ==> forall k :: 0 <= k && k < c.length ==> a.seqmap[name].sequence[old(len(a.seqmap[name].sequence)) + k] == '-'
+//@   ensures !old(has(c.seqmap, name)) ==> forall k :: 0 <= k && k < old(len(a.seqmap[name].sequence)) ==> a.seqmap[name].sequence[k] == old(a.seqmap[name].sequence[k])
+//@   modifies captured(err), a.seqmap[name].sequence, a.seqmap[name].sequence[+]
+
+// Concat, the function itself (safety and the alphabet check; what the passes do to the rows is in the closures' contracts:
+// the effects of the function literals are havocked at the three Iterate calls)
+//@ func (*align).Concat
+//@   props C04
+//@   requires wfa(a) && wfa(c)
+//@   ensures a.alphabet != c.alphabet ==> err != nil && c4b_sameshape(a)
+//@   modifies field(seqbag.seqs), field(align.length), field(seq.sequence), mem(*seq), mem(uint8), maps(map[string]*seq)
+
+// Append: the step run on every row of al (AddSequenceChar through its contract): the alignment stays well-formed; a row with a new
+// name and the right length is added at the end, under its name, with the residues of the given row (the storage is SHARED with al's row);
+// the iteration stops at the first error
+//@ func (*align).Append$1
+//@   props C04
+//@   requires wfa(a)
+//@   ensures wfa(a) && result == (err != nil)
+//@   ensures forall r :: 0 <= r && r < old(nrows(a)) ==> row(a, r) == old(row(a, r))
+//@   ensures !old(has(a.seqmap, name)) && (old(a.length) == -1 || old(a.length) == len(sequence)) ==> err == nil && nrows(a) == old(nrows(a)) + 1 && rowname(a, old(nrows(a))) == name && sameslice(row(a, old(nrows(a))).sequence, sequence) && a.length == len(sequence)
+//@   ensures old(a.length) != -1 && old(a.length) != len(sequence) && a.ignoreidentical == IGNORE_NONE ==> err != nil && nrows(a) == old(nrows(a)) && a.length == old(a.length)
+//@   modifies captured(err), a.seqs, a.length, a.seqs[+], map(a.seqmap)
+
+// Append, the function itself: safety and frame only (the effects of the function literal are havocked at the IterateAll call)
+//@ func (*align).Append
+//@   props C04
+//@   requires wfa(a) && wfa(al)
+//@   modifies field(seqbag.seqs), field(align.length), mem(*seq), maps(map[string]*seq)
